@@ -16,7 +16,21 @@ TAGS = {
     "n:OriginalDate": b"OriginalDate", "n:Date": b"Date", "n:Genre": b"Genre",
     "any": b"any", "o:" + hexs("file"): b"file", "o:" + hexs("x-y_Z"): b"x-y_Z",
 }
+# tags obtained from a name through Tag::try_from (any letter case): the model is given the tag the MPD reference says that name
+# denotes, the implementation has to find it itself
+P_MODEL = {}
+for _name, _spec in (("artist", "n:Artist"), ("ARTIST", "n:Artist"), ("Album", "n:Album"), ("albumartistsort", "n:AlbumArtistSort"),
+                     ("MUSICBRAINZ_TRACKID", "n:MusicBrainzRecordingId"), ("musicbrainz_trackid", "n:MusicBrainzRecordingId"),
+                     ("MusicBrainz_ArtistId", "n:MusicBrainzArtistId"), ("originaldate", "n:OriginalDate"), ("GENRE", "n:Genre"),
+                     ("file", "o:" + hexs("file")), ("x-y_Z", "o:" + hexs("x-y_Z"))):
+    P_MODEL["p:" + hexs(_name)] = _spec
+    TAGS["p:" + hexs(_name)] = TAGS[_spec]
 TAGSPECS = list(TAGS)
+
+
+def to_model(case):
+    import re as _re
+    return _re.sub(r"p:[0-9a-f]+", lambda m: P_MODEL.get(m.group(0), m.group(0)), case)
 OPS = {"Equal": "==", "NotEqual": "!=", "Contain": "contains", "Match": "=~", "NotMatch": "!~"}
 HOWS = {"find": (1, 2), "count": (1, 2), "list": (2, 3), "countg": (1, 4), "list2": (2, 3), "countg2": (1, 4)}   # how -> (filter token index, token count)
 
@@ -404,7 +418,7 @@ def run(ctx, only=None):
     disagreements = []
     model = []
     if ctx.model_ok:
-        model = ctx.run_model(cases)
+        model = ctx.run_model([to_model(c) for c in cases])
         disagreements = compare(cases, impl, model)
     fails, stats = ([], {})
     if ctx.model_ok:
